@@ -378,3 +378,84 @@ def rule_L_RECURSION_lexical(ctx, reach):
         ctx.ob("L-PROGRESS", "lexical recursion cycle {%s}" % ", ".join(sorted(f.mir[p]["name"] for p in comp)), not cyc,
                "a recursive cycle passes its whole slice on: edges that do not shrink the slice %s" %
                {f.mir[k]["name"]: sorted(f.mir[v]["name"] for v in vs) for k, vs in edges.items()})
+
+
+def _err_successors(b, g, bi):
+    """blocks entered when the Result / Option returned by the call in block bi is Err / None (direct match or `?`)"""
+    t = b["blocks"][bi]["term"]
+    if t["k"] != "Call" or t.get("target") is None:
+        return []
+    tracked, discrs = {t["dest"]["local"]}, set()
+    cur = t["target"]
+    for _ in range(8):
+        bl = b["blocks"][cur]
+        for s in bl["stmts"]:
+            if s["k"] != "Assign" or s["place"]["proj"]:
+                continue
+            rv = s["rv"]
+            if rv["k"] == "Discriminant" and rv["place"]["local"] in tracked and not [e for e in rv["place"]["proj"] if e["k"] != "Deref"]:
+                discrs.add(s["place"]["local"])
+            elif rv["k"] == "Use" and rv["op"]["k"] in ("Copy", "Move") and rv["op"]["place"]["local"] in tracked and not rv["op"]["place"]["proj"]:
+                tracked.add(s["place"]["local"])
+            elif rv["k"] == "Use" and rv["op"]["k"] in ("Copy", "Move") and rv["op"]["place"]["local"] in discrs:
+                discrs.add(s["place"]["local"])
+        tt = bl["term"]
+        if tt["k"] == "Call" and mir.callee_name(tt) == "branch" and tt["args"] and tt["args"][0]["k"] in ("Copy", "Move") \
+                and tt["args"][0]["place"]["local"] in tracked and tt.get("target") is not None:
+            tracked.add(tt["dest"]["local"])
+            cur = tt["target"]
+            continue
+        if tt["k"] == "SwitchInt" and tt["discr"]["k"] in ("Copy", "Move") and tt["discr"]["place"]["local"] in discrs:
+            ok0 = [tb for v, tb in tt["targets"] if v == 0]
+            return [x for x in set([tb for v, tb in tt["targets"] if v != 0] + [tt["otherwise"]]) if x not in ok0
+                    and b["blocks"][x]["term"]["k"] != "Unreachable"]
+        if tt["k"] == "Goto":
+            cur = tt["target"]
+            continue
+        break
+    return []
+
+
+def rule_L_ONCE_enum(ctx, reach, eadv):
+    ctx.rule("L-ONCE", "bounded-time clause (necessary condition) for the cursor-based enum parser: inside a recursion cycle, after a call of a "
+             "cycle member has FAILED (Err edge of its result) no member of the cycle is called again before the cursor has advanced (the enum parser "
+             "dispatches on keyword tests, it never tries an alternative after a failed recursive attempt) -- a retry over the same region doubles "
+             "the work per nesting level")
+    f = ctx.facts
+    cg = mir.callgraph(f)
+    nodes = set(p for p in reach if "impl_enum::parser" in p)
+    n = 0
+    for comp in cg.sccs(nodes):
+        comp = set(comp)
+        for p in sorted(comp):
+            b = f.mir[p]
+            g = mir.cfg(b)
+            sa = eadv._sarg(b)
+            # only unconditional cursor advances count here: a fallible callee that "advances on Ok" says nothing about its Err edge
+            prog = set()
+            for bi in g.reach:
+                if sa is not None and eadv.block_effect(p, b, g, sa, bi) == "A":
+                    tt = b["blocks"][bi]["term"]
+                    rty = b["locals"][tt["dest"]["local"]]["ty"] if tt["k"] == "Call" else ""
+                    if not rty.startswith("std::result::Result") and not rty.startswith("std::option::Option"):
+                        prog.add(bi)
+            bad = []
+            for bi, t in g.calls():
+                cal = mir.callee_path(t)
+                if cal not in comp:
+                    continue
+                n += 1
+                for e in _err_successors(b, g, bi):
+                    after = g.reachable_from(e, avoid=tuple(prog))
+                    # closures of the cycle that are built on the way (handed to or_else / map_err ...) count as calls
+                    for bj in sorted(after):
+                        for st in b["blocks"][bj]["stmts"]:
+                            if st["k"] == "Assign" and st["rv"]["k"] == "Aggregate" and st["rv"].get("agg") == "Closure" and st["rv"].get("def") in comp:
+                                bad.append("%s fails at line %s and a closure that re-enters the cycle is built at line %s without cursor progress"
+                                           % (mir.callee_name(t), t["line"], st["line"]))
+                    for bj, t2 in g.calls():
+                        if bj in after and (mir.callee_path(t2) in comp or any(a["k"] == "Const" and a.get("closure") in comp for a in t2["args"])):
+                            bad.append("%s fails at line %s and %s is tried at line %s without cursor progress" % (mir.callee_name(t), t["line"], mir.callee_name(t2), t2["line"]))
+            ctx.ob("L-ONCE", "%s: a failed member of the recursion cycle is not retried over the same region" % fname(b, p), not bad, "; ".join(sorted(set(bad))),
+                   "%s:%s" % (b["span"]["file"], b["span"]["line"]))
+    ctx.floor("recursive call sites examined by L-ONCE (enum)", n, 4)
